@@ -18,7 +18,7 @@ func main() {
 	}
 	switch os.Args[1] {
 	case "callees":
-		p, err := sym.Load(sym.LoadConfig{HarnessDir: "/verif/harness", Patterns: []string{"verifharness/props"}, RootPkg: "verifharness/props", Overlay: loadOverlay()})
+		p, err := sym.Load(sym.LoadConfig{HarnessDir: harnessDir, Patterns: []string{"verifharness/props"}, RootPkg: "verifharness/props", Overlay: loadOverlay()})
 		if err != nil {
 			fmt.Fprintln(os.Stderr, err)
 			os.Exit(2)
@@ -33,7 +33,7 @@ func main() {
 		maxp := fs.Int("maxpaths", 0, "path budget")
 		trace := fs.Bool("trace", false, "trace")
 		fs.Parse(os.Args[2:])
-		p, err := sym.Load(sym.LoadConfig{HarnessDir: "/verif/harness", Patterns: []string{"verifharness/props"}, RootPkg: "verifharness/props", Overlay: loadOverlay()})
+		p, err := sym.Load(sym.LoadConfig{HarnessDir: harnessDir, Patterns: []string{"verifharness/props"}, RootPkg: "verifharness/props", Overlay: loadOverlay()})
 		if err != nil {
 			fmt.Fprintln(os.Stderr, err)
 			os.Exit(2)
